@@ -1,6 +1,6 @@
 #!/bin/bash
-# seed_test.sh <PROP> <N>  : confirm the seeded change in /tmp/mut/<PROP> and run the property's quick check against it
-P=$1; ID=$1-$2; WT=/tmp/mut/$P
+# seed_test.sh <PROP> <N> [worktree] : confirm the seeded change in /tmp/mut/<PROP> and run the property's quick check against it
+P=$1; ID=$1-$2; WT=${3:-/tmp/mut/$P}
 [ -f /verif/seeded/$ID/confirm.json ] || /verif/engine/confirm_seed.sh $WT $ID > /tmp/confirm_$ID.out 2>&1
 mkdir -p /tmp/mv && rsync -a --delete --exclude .git --exclude evidence --exclude replays /verif/ /tmp/mv/verif-$ID/
 cd /tmp/mv/verif-$ID && VERIF_REPO=$WT VERIF_MEM_GB=12 timeout 2400 python3 run.py check $P --jobs 3 > /tmp/mv/$ID.out 2>&1
